@@ -15,6 +15,7 @@ RULE = ('hypothesis: Euler angles with beta class in {exactly 0, exactly pi, gen
         'Non-trivial = beta in {0,pi} or near band or a mixed batch; distinct = (function, beta classes in the batch, quadrant of alpha+-gamma, batch shape).'
         ' Representation clauses are sign-exact (D^{1/2}(U)=U, D(U1U2)=D(U1)D(U2)) including exactly diagonal / anti-diagonal / minus-identity group elements; second-call clause for angular momentum operators and Clebsch-Gordan tables.'
         ' Angles given as the integer 0.')
+RULE += ' Every Clebsch-Gordan block is checked for its shape (2J+1, 2j1+1, 2j2+1), including j1=0 and j2=0.'
 ASSUMPTIONS = ['round trips are judged on the matrices at 1e-6 (the algorithm switches to the gimbal-lock branch below zero_eps=1e-7, so an O(1e-7) error is inherent there)',
                'SU(2) round trip is accepted up to the documented overall sign',
                'Clebsch-Gordan coefficients come from sympy inside numqi; they are judged only through orthogonality and the intertwining relation']
